@@ -183,7 +183,7 @@ func BuildTx(w *mc.World, t model.Tx) mc.TxSpec {
 func InitModel(w *mc.World, tracked []string) *model.State {
 	sp := w.Spec
 	s := &model.State{
-		Now: w.Time.UnixNano(), Bal: map[string]map[string]*big.Int{}, Supply: map[string]*big.Int{},
+		Now: timeNs(w.Time), Bal: map[string]map[string]*big.Int{}, Supply: map[string]*big.Int{},
 		Ent: model.Ent{P: model.EntP{Denom: mc.Nund, Signers: append([]string{}, sp.EntSigner...), Min: sp.MinAccept, Limit: sp.Limit},
 			Whitelist: map[string]bool{}, NextID: sp.StartPO, Orders: map[uint64]*model.Order{}, Locked: map[string]*big.Int{}, Spent: map[string]*big.Int{}, Completed: map[string]*big.Int{}},
 		Wrk:    model.Anchor{P: anchP(sp.Wrk), NextID: sp.Wrk.StartID, Ents: map[uint64]*model.Entity{}},
